@@ -484,7 +484,12 @@ theorem mergeAll_frame (m : Mach) (s o : Nat) (hwf : WfS m s) :
       simp only [writeSet, List.mem_filterMap] at ha
       obtain ⟨e, he, hl⟩ := ha
       exact (hfresh e he).2.2 a (List.mem_of_getLast? hl)
-    · -- merge loop, then the num_skipped_reps tail
+    · -- validation pass first: a failing one changes nothing
+      split
+      · exact ⟨Frame.refl _ _ _, fun a ha => Or.inl ha, hwf⟩
+      split
+      · exact ⟨Frame.refl _ _ _, fun a ha => Or.inl ha, hwf⟩
+      -- merge loop, then the num_skipped_reps tail
       generalize hmn : mergeNames (dictOf m s) (dictOf m o) m (List.map (·.1) (dictOf m s)) = p
       obtain ⟨m1, e1⟩ := p
       have hf1 : Frame (W0 m s) s m m1 := by
